@@ -105,7 +105,7 @@ def run(pid, tier):
     out.assumptions = TRUSTED + [
         'BOUNDED in the number of elements: Kani n <= %s, native sweep n <= %d; the step is proved per size, not for all n (no deductive verifier here handles std::cell::Cell behind &self)' % (
             unit_uf.KANI_BOUNDS[tier], 5 if tier == 'thorough' else 4),
-        'TrRelUnionFind and the HashMap front end of UnionFind: bounded native enumeration only (histories of <= 4 (quick) / 6 (thorough) operations over 4 / 3 items), never counted as proved',
+        'TrRelUnionFind and the HashMap front end of UnionFind: bounded native enumeration only (UnionFind histories of <= 4 (quick) / 6 (thorough) operations over 3 items, TrRelUnionFind histories of <= 6 adds over 4 items), never counted as proved',
         'feature "compact" (u32 pointers) is not built; termination of find is checked only within the size bound',
         'unsafe get_unchecked: in-bounds only under INV (checked by CBMC pointer checks within the bound)',
     ]
